@@ -34,6 +34,10 @@ SNIPPETS = [
     "x = 'a' 'b'\n\n",
     "for i in y:\n\tpass\n",
     "x = 1 + \\\n\\\n 2 3\n",
+    # characters at which str.splitlines() splits but which do not end a physical line
+    "x = \"a\x0cb\"\ny = 1\n",
+    "s = '''p\x1cq\nr\x85s\n''' + t\nu\n",
+    "z = 1  # c\u2028d\nw\n",
 ]
 
 
@@ -100,9 +104,8 @@ class CountingIter:
 
 
 def tok_term(t: tokenize.TokenInfo) -> str:
-    for ch in "\r\x0b\x0c\x1c\x1d\x1e\x85\u2028\u2029":
-        if ch in t.line:
-            raise ValueError("line separator outside the model")
+    if "\r" in t.line:
+        raise ValueError("carriage return: outside the model")
     return ("{| " + f"ty := {cN(t.type)}; tstr := {cstr(t.string)}; sline := {cnat(t.start[0])}; "
             f"scol := {cnat(t.start[1])}; eline := {cnat(t.end[0])}; ecol := {cnat(t.end[1])}; "
             f"tline := {cstr(t.line)}; tspace := {cbool(t.string.isspace())}" + " |}")
@@ -138,6 +141,12 @@ def random_ops(r, n: int, maxline: int) -> list[tuple]:
             b = r.randint(a, min(maxline + 1, a + 3))
             ops.append(("lines", list(range(a, b + 1))))
     return ops
+
+
+def nl_lines(text: str) -> list[str]:
+    """physical lines: split after every "\\n" only (str.splitlines also splits at form feeds etc.)"""
+    parts = text.split("\n")
+    return [p + "\n" for p in parts[:-1]] + ([parts[-1]] if parts[-1] else [])
 
 
 def run_real(raw, ops, path_text: str | None):
@@ -242,7 +251,7 @@ OK = ("fun c => let '(raw, hp, fl, ops, es, fin) := c in "
 
 
 def case_term(raw, ops, path_text, outs, final) -> str:
-    fl = path_text.splitlines(keepends=True) if path_text is not None else []
+    fl = nl_lines(path_text) if path_text is not None else []
     fi, fn, fp, fls = final
     return (f"({clist(raw, tok_term)}, {cbool(path_text is not None)}, {clist(fl, cstr)}, "
             f"{clist(ops, op_term)}, {clist(outs, out_term)}, "
